@@ -5,6 +5,7 @@
   permissive parse of the rewriting is compared with the strict parse of the original (`checks/C14.py`).
 -/
 import Cellml.Legacy.Model
+import Cellml.Legacy.Groups
 namespace Cellml.Props.C14
 open Cellml.Legacy
 
@@ -89,5 +90,23 @@ example : isEncapsulation [some "containment", some "encapsulation", none] = tru
 example : isEncapsulation [some "containment", some "Encapsulation"] = false := by decide
 example : merge [(true, "none"), (false, "in")] = .priv := by decide
 example : merge [(false, "out"), (true, "in")] = .both := by decide
+
+/-! ### several encapsulation groups (fix 24b05bd) -/
+
+/-- the hierarchy loaded from all the groups of a 1.x document is exactly the set of (child, parent) pairs they state —
+    provided no component is given a parent twice -/
+theorem groups_spec (ops : List GOp) (hnd : (children ops).Nodup) (c p : String) :
+    grun true ops c = some p ↔ GOp.set c p ∈ ops := grun_spec ops hnd c p
+
+/-- … so it does not matter how the pairs are dealt out to groups, nor in which order the groups stand -/
+theorem groups_dealing_irrelevant (ops ops' : List GOp) (hnd : (children ops).Nodup) (hnd' : (children ops').Nodup)
+    (h : ∀ c p, GOp.set c p ∈ ops ↔ GOp.set c p ∈ ops') : grun true ops = grun true ops' := grun_perm ops ops' hnd hnd' h
+
+/-- the hierarchy `a ⊃ {d, b ⊃ c}` written as one group or as two gives the same parents … -/
+theorem groups_example : ∀ x ∈ ["a", "b", "c", "d"], grun true exOne x = grun true exTwo x := by decide
+
+/-- … whereas before the repair (the component of a top-level component_ref went back to the model) the second group
+    took `b` away from `a` -/
+theorem groups_before_repair : grun false exTwo "b" = none ∧ grun true exTwo "b" = some "a" := by decide
 
 end Cellml.Props.C14
